@@ -26,7 +26,7 @@ VARIANTS = {
     # single-threaded machines: ASan+UBSan, trace-pc-guard feeds the deterministic step counter
     "asan": dict(
         cc="clang", cxx="clang++",
-        san=["-fsanitize=address,undefined", "-fno-sanitize=pointer-overflow,null", "-fno-sanitize-recover=undefined",
+        san=["-fsanitize=address,undefined", "-fno-sanitize=pointer-overflow,null,object-size", "-fno-sanitize-recover=undefined",
              "-fno-omit-frame-pointer"],
         sut_extra=["-fsanitize-coverage=trace-pc-guard"],
         opt=["-O1", "-g"],
@@ -45,7 +45,21 @@ VARIANTS = {
 # driver name -> (variant, harness sources relative to hwsim/, extra link flags, sources that get SUT instrumentation)
 DRIVERS = {
     "bitmap": dict(variant="asan", src=["core/core.cc", "bitmap/machine_bitmap.cc"], link=[]),
+    "topo": dict(variant="asan", src=["core/core.cc", "topo/dump.cc", "topo/wf.cc", "topo/src.cc", "topo/ops_core.cc",
+                                      "topo/machine_topo.cc"], link=[]),
+    # C10: hwloc's Linux binding hooks against the kernel model (bind/kmodel.cc); the real kernel is never asked
+    "bind": dict(variant="asan", src=["core/core.cc", "bind/kmodel.cc", "bind/machine_bind.cc"],
+                 link=["-Wl,--wrap=sched_setaffinity,--wrap=sched_getaffinity,--wrap=sched_getcpu,--wrap=syscall,"
+                       "--wrap=pthread_setaffinity_np,--wrap=pthread_getaffinity_np,--wrap=openat,--wrap=sysconf"]),
 }
+
+
+# C17: hwloc + the driver carry the compile-time half of TSan; sched/sched_rt.cc is the runtime (baton scheduler + HB race detector)
+DRIVERS["sched"] = dict(
+    variant="sched", src=["core/core.cc", "sched/sched_rt.cc", "sched/machine_sched.cc"],
+    instrumented=["sched/machine_sched.cc"],   # hwloc's static inline helpers (helper.h) live in the driver: instrument them too
+    link=["-Wl,--wrap=malloc,--wrap=calloc,--wrap=realloc,--wrap=free,--wrap=strdup,--wrap=memcpy,--wrap=memmove,--wrap=memset,"
+          "--wrap=qsort,--wrap=pthread_mutex_lock,--wrap=pthread_mutex_unlock,--wrap=getenv"])
 
 
 def sh(cmd, **kw):
@@ -74,9 +88,16 @@ def sut_inputs():
     return files
 
 
-def harness_inputs():
+def harness_inputs(driver=None):
+    """Sources that can influence a driver: the directories of its own sources plus core/ (not other machines')."""
+    dirs = None
+    if driver is not None:
+        dirs = set(["core"] + [os.path.dirname(x) for x in DRIVERS[driver]["src"]])
     files = []
     for root, _, names in os.walk(VERIF + "/hwsim"):
+        rel = os.path.relpath(root, VERIF + "/hwsim")
+        if dirs is not None and rel.split(os.sep)[0] not in dirs:
+            continue
         for n in names:
             if n.endswith((".cc", ".h", ".c")):
                 files.append(os.path.join(root, n))
@@ -102,7 +123,7 @@ def build(driver, quiet=True):
     d = DRIVERS[driver]
     v = VARIANTS[d["variant"]]
     inc = include_flags()
-    key = file_hash(sut_inputs() + harness_inputs(), extra=repr((d, v, REPO)))
+    key = file_hash(sut_inputs() + harness_inputs(driver), extra=repr((d, v, REPO)))
     bdir = "%s/build/%s-%s" % (VERIF, d["variant"], file_hash(sut_inputs(), extra=repr((v, REPO))))
     os.makedirs(bdir, exist_ok=True)
     binp = "%s/build/bin/%s-%s" % (VERIF, driver, key)
